@@ -41,6 +41,7 @@ def run(chk):
         for P in range(1, pmax + 1):
             cases.append((0, n, P))
     for _ in range(300 if quick else 0):
+        rng.seed("%d/c14-1/%d" % (chk.seed, _))      # every world has its own stream: families do not disturb each other
         s = rng.randint(0, 50)
         cases.append((s, s + rng.randint(0, 300), rng.randint(1, 40)))
     if tie_broken is not None:
@@ -81,6 +82,7 @@ def run(chk):
     lines = []
     meta = []
     for wi in range(8 if quick else 60):
+        rng.seed("%d/c14-2/%d" % (chk.seed, wi))      # every world has its own stream: families do not disturb each other
         wj, sph = any_world(rng, cross=False)
         qs = [query3d(rng, wj, sph) for _ in range(40)]
         T = rng.choice([2, 3, 4, 8, 16, 32])
@@ -134,6 +136,7 @@ def run(chk):
     os.makedirs(gdir)
     exe = os.path.join(common.BUILD, "bin", "gwb-grid")
     for gi in range(4 if quick else 12):
+        rng.seed("%d/c14-3/%d" % (chk.seed, gi))      # every world has its own stream: families do not disturb each other
         wj, sph = area_world(rng, spherical=False, cross=True)
         # a layer under everything with a velocity, so that the 3-component data set is not all zero
         wj["features"].insert(0, {"model": "mantle layer", "name": "flow", "coordinates": [[-1e6, -1e6], [1e6, -1e6], [1e6, 1e6], [-1e6, 1e6]],
